@@ -1038,7 +1038,7 @@ fn link_of<S: std::fmt::Debug>(s: &S) -> Link {
     }
 }
 fn orl_user_timer(out: &mut Out, r: &mut Rng, n: usize) {
-    let mut lost_reported = 0;
+    let mut lost_sampled = false;
     for c in 0..n {
         let n_actors = 2 + r.below(3);
         // a wrapped actor that only sends (the link supports nothing else), with timeout rows of its own
@@ -1126,15 +1126,24 @@ fn orl_user_timer(out: &mut Out, r: &mut Rng, n: usize) {
             out.v("orl-user-timer-link-state", &format!("{}: after {:?} expected {:?}", ctx, after, want));
         }
         if !matches!(cow, Cow::Owned(_)) { out.v("orl-user-timer-state-not-owned", &ctx); }
-        // (c) the wrapped actor's state change is wrapped back
+        // (c) the wrapped actor's state change.  OBSERVATION (DESIGN §11.3), not a violation: the current code drops a
+        // `Cow::Owned` wrapped state in this arm (only `process_output` runs; `on_msg` does write it back).  No
+        // reachable state owns a User timer while a wrapped `set_timer` is `todo!()`, so no property statement covers
+        // it: counted and sampled.  What IS a law: the link wraps the new or (today) the old state, nothing else.
         let want_ws = ns.unwrap_or(ws) as u64;
         if want_ws != ws as u64 { out.stat("orl-user-timer-wrapped-state-changes"); }
         if after.wrapped != want_ws {
-            out.stat("orl-user-timer-state-change-lost");
-            if lost_reported < 3 {
-                lost_reported += 1;
-                out.v("orl-user-timer-state-change-lost", &format!("{}: the wrapped actor's on_timeout set its state to {} (Cow::Owned) but the link state still wraps {}", ctx, want_ws, after.wrapped));
+            if after.wrapped == ws as u64 {
+                out.stat("observation-orl-user-timer-state-change-lost");
+                if !lost_sampled {
+                    lost_sampled = true;
+                    out.sample(&format!("OBSERVATION orl user timer: {}: the wrapped actor's on_timeout set its state to {} (Cow::Owned) but the link state still wraps {}", ctx, want_ws, after.wrapped));
+                }
+            } else {
+                out.v("orl-user-timer-wrapped-state-garbled", &format!("{}: wrapped state {} is neither the old {} nor the new {}", ctx, after.wrapped, ws, want_ws));
             }
+        } else if want_ws != ws as u64 {
+            out.stat("orl-user-timer-state-change-kept");
         }
     }
 }
@@ -1142,13 +1151,13 @@ fn orl_user_timer(out: &mut Out, r: &mut Rng, n: usize) {
 fn main() {
     quiet_panics();
     let mut out = Out::new();
-    out.max_samples = 10;
+    out.max_samples = 12;
     let mut r = Rng::new(seed());
     let th = thorough();
     let scale = if th { 10 } else { 1 };
 
     // 1 + 2: presentation and serialisation on random systems
-    let n_sys = arg_u64("--systems", 160 * scale as u64) as usize;
+    let n_sys = arg_u64("--systems", 300 * scale as u64) as usize;
     let p = GenParams::default();
     for i in 0..n_sys {
         let mut rr = r.fork();
@@ -1163,12 +1172,12 @@ fn main() {
         present_system(&mut out, &mut rr, &spec, 40, 300, 6, i < 2);
     }
     // 3
-    network_names(&mut out, &mut r.fork(), 300 * scale);
+    network_names(&mut out, &mut r.fork(), 500 * scale);
     // 4
-    glue(&mut out, &mut r.fork(), 150 * scale);
+    glue(&mut out, &mut r.fork(), 300 * scale);
     // 5
-    register_clients(&mut out, &mut r.fork(), 150 * scale);
+    register_clients(&mut out, &mut r.fork(), 300 * scale);
     // 6
-    orl_user_timer(&mut out, &mut r.fork(), 600 * scale);
+    orl_user_timer(&mut out, &mut r.fork(), 1500 * scale);
     out.finish();
 }
